@@ -32,6 +32,8 @@ func propC19() Property {
 			{ID: "C19-R6", Desc: "shared definitions are never mutated after construction", Min: 5, Run: c19R6},
 			{ID: "C19-R7", Desc: "every field part is entered into the message's field table", Min: 1, Run: c19R7},
 			{ID: "C19-R8", Desc: "field/group definitions are constructed per occurrence, not taken from a by-name cache", Min: 2, Run: c19R8},
+			{ID: "C19-R13", Desc: "a group's required members are not hoisted into what contains the group", Min: 1, Run: c19R13},
+			{ID: "C19-R12", Desc: "enumeration values are keyed by the declared string as it is", Min: 1, Run: c19R12},
 			{ID: "C19-R11", Desc: "a loaded dictionary is built in that call, never taken from a package-level cache", Min: 1, Run: c19R11},
 			{ID: "C19-R10", Desc: "every declared component and message is built", Min: 2, Run: c19R10},
 			{ID: "C19-R9", Desc: "child tags collected recursively; enumerations built from one value on", Min: 2, Run: c19R9},
